@@ -118,8 +118,9 @@ def isMsel : Expr V → Bool
   | _ => false
 
 /-- calls have at most one argument (range functions, the per-sample functions, `scalar`,
-`vector`, `time`, `pi`) or two or three of which one is a literal (`clamp_min(x, 1)`,
-`histogram_quantile(0.9, x)`), every distributive aggregation is an exact one (no topk /
+`vector`, `time`, `pi`) or two or three of which one is a literal or scalar-typed (`clamp_min(x, 1)`,
+`clamp_max(x, scalar(y))`, `histogram_quantile(0.9, x)` - every well-typed call of the language),
+every distributive aggregation is an exact one (no topk /
 bottomk), and no coalesce / remote nodes yet -/
 def siteOk : Expr V → Bool
   | .num _ => true
@@ -128,7 +129,7 @@ def siteOk : Expr V → Bool
   | .msel _ _ => true
   | .subq e => siteOk e
   | .call fn args =>
-    okArgs args && (decide (args.length ≤ 1) || (decide (args.length ≤ 3) && args.any stopsArg))
+    okArgs args && (decide (args.length ≤ 1) || (decide (args.length ≤ 3) && args.any fun a => stopsArg a || a.isScalar))
   | .agg op _ _ e => siteOk e && (!distAggs.contains op || exactAggs.contains op)
   | .aggP op w g p e => siteOk e && !isDistributive (some (.aggP op w g p e))
   | .bin _ _ _ l r => siteOk l && siteOk r
